@@ -30,6 +30,9 @@
 #ifndef H_CTX
 #define H_CTX 0
 #endif
+#ifndef H_VIRT
+#define H_VIRT 0
+#endif
 #ifndef H_INJ_ROOT
 #define H_INJ_ROOT 0
 #endif
@@ -51,10 +54,18 @@
 #ifndef H_CONSTCB
 #define H_CONSTCB 0    // 1: every callback of the state classes (not of the injected bases) is a const member function
 #endif
-#if H_CONSTCB
-#define CQ const
+#ifndef H_VIRT
+#define H_VIRT 0       // 1: the injected bases declare their callbacks virtual; the library's own stubs then override them with noexcept functions, so the states' callbacks are noexcept too
+#endif
+#if H_VIRT
+#define NX noexcept
 #else
-#define CQ
+#define NX
+#endif
+#if H_CONSTCB
+#define CQ const NX
+#else
+#define CQ NX
 #endif
 #ifndef H_HEADER
 #define H_HEADER <ffsm2/machine.hpp>
@@ -445,10 +456,20 @@ template <typename C> static bool doFull(C& c, const Act& a, int self, std::stri
 	if (a.op == "change") { c.changeTo(ffsm2::StateID(a.a)); res = "ok"; return true; }
 #endif
 	if (a.op == "changeWith") {
-#if H_PAYLOAD && H_TAPI
-		{ const Payload pl = mkPayload(a.p); FChangeWith<C> f{c, pl}; withState(a.a, f); } res = "ok";
-#elif H_PAYLOAD
-		c.changeWith(ffsm2::StateID(a.a), mkPayload(a.p)); res = "ok";
+#if H_PAYLOAD
+		{
+			// re-targeting a request: when the pending request already carries this very payload the caller passes that object on, so the
+			// argument aliases the request that changeWith() is about to overwrite (same bytes either way; the model sees no difference)
+			const Payload pl = mkPayload(a.p);
+			const Payload* const pending = c.request().payload();
+			const Payload& arg = (pending && std::memcmp(pending, &pl, sizeof(Payload)) == 0) ? *pending : pl;
+#if H_TAPI
+			FChangeWith<C> f{c, arg}; withState(a.a, f);
+#else
+			c.changeWith(ffsm2::StateID(a.a), arg);
+#endif
+		}
+		res = "ok";
 #else
 		res = "ignored";
 #endif
@@ -542,21 +563,27 @@ template <typename C, typename K> static void on(int who, int rec, int meth, C& 
 	void exitGuard_(GuardControl& c) const { on(WHO, REC, M_exitGuard, c, KGuard{}); } \
 	void exit_(PlanControl& c) const { on(WHO, REC, M_exit, c, KPlan{}); }
 
-// an injected base defines every callback
+// an injected base defines every callback.  -DH_VIRT=1: declares them virtual (user code may: a common base with overridable hooks); the state's
+// callbacks of the same signature then override them, and the library must still deliver to the injected base itself, not to the final overrider
+#if H_VIRT
+#define VQ virtual
+#else
+#define VQ
+#endif
 template <int W, int J> struct InjT : FSM::State {
 	CALLBACKS(0x3fff, W, J)
-	void entryGuard(GuardControl& c) { entryGuard_(c); }
-	void enter(PlanControl& c) { enter_(c); }
-	void reenter(PlanControl& c) { reenter_(c); }
-	void preUpdate(FullControl& c) { preUpdate_(c); }
-	void update(FullControl& c) { update_(c); }
-	void postUpdate(FullControl& c) { postUpdate_(c); }
-	void preReact(const Ev& e, FullControl& c) { preReact_(e, c); }
-	void react(const Ev& e, FullControl& c) { react_(e, c); }
-	void postReact(const Ev& e, FullControl& c) { postReact_(e, c); }
-	void query(Ev& e, ConstControl& c) const { query_(e, c); }
-	void exitGuard(GuardControl& c) { exitGuard_(c); }
-	void exit(PlanControl& c) { exit_(c); }
+	VQ void entryGuard(GuardControl& c) { entryGuard_(c); }
+	VQ void enter(PlanControl& c) { enter_(c); }
+	VQ void reenter(PlanControl& c) { reenter_(c); }
+	VQ void preUpdate(FullControl& c) { preUpdate_(c); }
+	VQ void update(FullControl& c) { update_(c); }
+	VQ void postUpdate(FullControl& c) { postUpdate_(c); }
+	VQ void preReact(const Ev& e, FullControl& c) { preReact_(e, c); }
+	VQ void react(const Ev& e, FullControl& c) { react_(e, c); }
+	VQ void postReact(const Ev& e, FullControl& c) { postReact_(e, c); }
+	VQ void query(Ev& e, ConstControl& c) const { query_(e, c); }
+	VQ void exitGuard(GuardControl& c) { exitGuard_(c); }
+	VQ void exit(PlanControl& c) { exit_(c); }
 };
 template <int W, typename> struct BaseOf;
 template <int W, int... Js> struct BaseOf<W, Seq<Js...>> { using Type = FSM::StateT<InjT<W, Js>...>; };
@@ -592,16 +619,16 @@ template <int I> struct St : BaseOf<I, MakeSeq<H_INJ_STATE>::Type>::Type {
 	void postUpdate(FullControl& c) CQ { BUMP postUpdate_(c); }
 #endif
 #if DEF(H_DEFSTATE, 6)
-	void preReact(const Ev& e, FullControl& c) { BUMP preReact_(e, c); }
+	void preReact(const Ev& e, FullControl& c) NX { BUMP preReact_(e, c); }
 #endif
 #if DEF(H_DEFSTATE, 7)
-	void react(const Ev& e, FullControl& c) { BUMP react_(e, c); }
+	void react(const Ev& e, FullControl& c) NX { BUMP react_(e, c); }
 #endif
 #if DEF(H_DEFSTATE, 8)
-	void postReact(const Ev& e, FullControl& c) { BUMP postReact_(e, c); }
+	void postReact(const Ev& e, FullControl& c) NX { BUMP postReact_(e, c); }
 #endif
 #if DEF(H_DEFSTATE, 9)
-	void query(Ev& e, ConstControl& c) const { query_(e, c); }
+	void query(Ev& e, ConstControl& c) const NX { query_(e, c); }
 #endif
 #if DEF(H_DEFSTATE, 10)
 	void exitGuard(GuardControl& c) CQ { BUMP exitGuard_(c); }
@@ -632,16 +659,16 @@ struct RootS : BaseOf<-1, MakeSeq<H_INJ_ROOT>::Type>::Type {
 	void postUpdate(FullControl& c) CQ { postUpdate_(c); }
 #endif
 #if DEF(H_DEFROOT, 6)
-	void preReact(const Ev& e, FullControl& c) { preReact_(e, c); }
+	void preReact(const Ev& e, FullControl& c) NX { preReact_(e, c); }
 #endif
 #if DEF(H_DEFROOT, 7)
-	void react(const Ev& e, FullControl& c) { react_(e, c); }
+	void react(const Ev& e, FullControl& c) NX { react_(e, c); }
 #endif
 #if DEF(H_DEFROOT, 8)
-	void postReact(const Ev& e, FullControl& c) { postReact_(e, c); }
+	void postReact(const Ev& e, FullControl& c) NX { postReact_(e, c); }
 #endif
 #if DEF(H_DEFROOT, 9)
-	void query(Ev& e, ConstControl& c) const { query_(e, c); }
+	void query(Ev& e, ConstControl& c) const NX { query_(e, c); }
 #endif
 #if DEF(H_DEFROOT, 10)
 	void exitGuard(GuardControl& c) CQ { exitGuard_(c); }
@@ -693,6 +720,7 @@ template <int... Is> static std::string stateHitsImpl(const FSM::Instance& m, Se
 }
 static std::string stateHits(const FSM::Instance& m) { return stateHitsImpl(m, MakeSeq<H_N>::Type{}); }
 #endif
+static unsigned g_epoch[4] = {0, 0, 0, 0}, g_heldEpoch[4] = {~0u, ~0u, ~0u, ~0u};      // g_epoch[i] counts the objects that have lived in slot i
 static void obs(int inst, const FSM::Instance& m) {
 	std::ostringstream o; o << "obs " << inst << " active=" << int(m.activeStateId());
 	std::string x;
@@ -719,7 +747,16 @@ static void obs(int inst, const FSM::Instance& m) {
 #endif
 #if H_PLANS
 	{ auto p = m.plan(); o << " plan=" << pstr(p);
-	  if (p) o << " first=" << taskStr(p.first()) << " last=" << taskStr(p.last()); else o << " first=- last=-"; }
+	  if (p) o << " first=" << taskStr(p.first()) << " last=" << taskStr(p.last()); else o << " first=- last=-";
+	  // a read-only plan obtained once and kept while the plan is edited is a view, not a snapshot: it must keep agreeing with a fresh one
+	  typedef decltype(m.plan()) CPlanType;
+	  alignas(CPlanType) static unsigned char held[4][sizeof(CPlanType)]; static const FSM::Instance* heldFor[4] = {nullptr, nullptr, nullptr, nullptr};
+	  if (heldFor[inst] != &m || g_heldEpoch[inst] != g_epoch[inst]) { new (held[inst]) CPlanType(m.plan()); heldFor[inst] = &m; g_heldEpoch[inst] = g_epoch[inst]; }
+	  else {
+	  	const CPlanType& h = *reinterpret_cast<const CPlanType*>(held[inst]);
+	  	if (pstr(h) != pstr(p) || static_cast<bool>(h) != static_cast<bool>(p)) x += " APIX=C10:held-read-only-plan[" + pstr(h) + "]";
+	  	else if (p && (taskStr(h.first()) != taskStr(p.first()) || taskStr(h.last()) != taskStr(p.last()))) x += " APIX=C10:held-read-only-plan-first-last";
+	  } }
 #else
 	o << " plan=[] first=- last=-";
 #endif
@@ -765,6 +802,7 @@ static const Transition* instPrev(int inst) { return g_inst[inst] ? &g_inst[inst
 #endif
 
 static FSM::Instance* make(int i, bool withLogger, int fill, const FSM::Instance* from) {
+	++g_epoch[i];
 	memset(g_mem[i], fill, sizeof g_mem[i]);
 	memset(g_script.counts[i], 0, sizeof g_script.counts[i]);
 	g_ctx[i].inst = i;
